@@ -67,12 +67,12 @@ c_gd2c = contract(GM + "geodetic2cart", prop=P, params=dict(h="real", lat="real"
                   ensures=["result[0] == (ellipsoid[0] / sqrt(1 - ellipsoid[1]**2 * sin(lat * %s)**2) + h) * cos(lat * %s) * cos(lon * %s)" % (RAD, RAD, RAD),
                            "result[1] == (ellipsoid[0] / sqrt(1 - ellipsoid[1]**2 * sin(lat * %s)**2) + h) * cos(lat * %s) * sin(lon * %s)" % (RAD, RAD, RAD),
                            "result[2] == (ellipsoid[0] / sqrt(1 - ellipsoid[1]**2 * sin(lat * %s)**2) * (1 - ellipsoid[1]**2) + h) * sin(lat * %s)" % (RAD, RAD)])
-c_rgd = contract(GM + "ellipsoid_r_geodetic", prop=P, params=dict(ellipsoid=ELL, lat="real"), pure=False, result="real",
+c_rgd = contract(GM + "ellipsoid_r_geodetic", prop=P, params=dict(ellipsoid=ELL, lat="real"), pure=False, result="real", elementwise=True,
                  requires=["ellipsoid[0] > 0", "0 <= ellipsoid[1]", "ellipsoid[1] < 1"],
                  ensures=["result > 0",
                           "result**2 * (1 - ellipsoid[1]**2 * sin(lat * %s)**2) == ellipsoid[0]**2 * "
                           "((1 - ellipsoid[1]**2)**2 * sin(lat * %s)**2 + cos(lat * %s)**2)" % (RAD, RAD, RAD)])
-c_rgc = contract(GM + "ellipsoid_r_geocentric", prop=P, params=dict(ellipsoid=ELL, lat="real"), pure=False, result="real",
+c_rgc = contract(GM + "ellipsoid_r_geocentric", prop=P, params=dict(ellipsoid=ELL, lat="real"), pure=False, result="real", elementwise=True,
                  requires=["ellipsoid[0] > 0", "0 <= ellipsoid[1]", "ellipsoid[1] < 1"],
                  ensures=["result > 0",
                           "implies(ellipsoid[1] == 0, result == ellipsoid[0])",
@@ -95,13 +95,31 @@ def thm_ellipse(a, e, lat: "real"):
 
 
 def _ell_sampler(rng):
-    return dict(ellipsoid=(rng.uniform(1e6, 7e6), rng.choice([0.0, 0.0818191908426, 0.1083, rng.uniform(0, 0.5)])),
-                lat=rng.uniform(-90, 90))
+    # latitude as a scalar or as an array of rank 1..2, float or integer dtype (in-place arithmetic on arrays aliases)
+    k = rng.choice(["scalar", "scalar", "1d", "1d", "2d", "int"])
+    if k == "scalar":
+        lat = rng.choice([0.0, 90.0, -90.0, rng.uniform(-90, 90), rng.uniform(-90, 90)])
+    elif k == "1d":
+        lat = _np.array([rng.uniform(-90, 90) for _ in range(rng.randint(1, 5))])
+    elif k == "2d":
+        lat = _np.array([[rng.uniform(-90, 90) for _ in range(3)] for _ in range(2)])
+    else:
+        lat = _np.array([rng.randint(-90, 90) for _ in range(4)])
+    return dict(ellipsoid=(rng.uniform(1e6, 7e6), rng.choice([0.0, 0.0818191908426, 0.1083, rng.uniform(0, 0.5)])), lat=lat)
 
 
 c_rgd.sampler = c_rgc.sampler = _ell_sampler
-c_gd2c.sampler = lambda rng: dict(h=rng.uniform(-1e4, 1e6), lat=rng.uniform(-88, 88), lon=rng.uniform(-180, 180),
-                                  ellipsoid=_ell_sampler(rng)["ellipsoid"])
+def _gd2c_sampler(rng):
+    d = dict(h=rng.uniform(-1e4, 1e6), lat=rng.uniform(-88, 88), lon=rng.uniform(-180, 180), ellipsoid=_ell_sampler(rng)["ellipsoid"])
+    if rng.random() < 0.4:           # arrays (broadcast against scalars)
+        n = rng.randint(1, 4)
+        for name in rng.choice([("lat",), ("lat", "lon"), ("h", "lat", "lon")]):
+            lo, hi = {"h": (-1e4, 1e6), "lat": (-88, 88), "lon": (-180, 180)}[name]
+            d[name] = _np.array([rng.uniform(lo, hi) for _ in range(n)])
+    return d
+
+
+c_gd2c.sampler = _gd2c_sampler
 
 
 @theorem(P, "points-on-ellipsoid", a="real", e="real")
